@@ -731,9 +731,85 @@ pub fn gen_cfg(rng: &mut Rng, nconf: u32, prop: &str, _version: u32) -> CfgSpec 
     CfgSpec { appenders, root_level: rng.range(0, 5) as u8, root_appenders: pick_apps(rng), loggers }
 }
 
+/// 68 bytes: targets below it differ only beyond byte 64.
+pub const LONG_PREFIX: &str = "payments_service::infrastructure::persistence::postgres::repositories";
+
+/// The targets records are logged with and `enabled` is probed with: the fixed
+/// list, plus - for configurations beyond the small name set - every logger
+/// name, a child of it, and the long family.
+pub fn target_pool(cfgs: &[CfgSpec]) -> Vec<String> {
+    let mut v: Vec<String> = TARGETS.iter().map(|s| s.to_string()).collect();
+    let scale = cfgs.iter().any(|c| c.loggers.iter().any(|l| !NAMES.contains(&l.name.as_str())));
+    if scale {
+        for c in cfgs {
+            for l in &c.loggers {
+                for t in [l.name.clone(), format!("{}::x", l.name)] {
+                    if !v.contains(&t) {
+                        v.push(t);
+                    }
+                }
+            }
+        }
+        for t in ["orders", "events", "orderz", "orders::x"] {
+            let t = format!("{}::{}", LONG_PREFIX, t);
+            if !v.contains(&t) {
+                v.push(t);
+            }
+        }
+    }
+    v
+}
+
+/// Configurations beyond small cases: hundreds of appenders, a dozen sibling
+/// loggers with nested ones below them, more than eight appenders failing for
+/// one record, logger names that differ only after their 64th byte.
+pub fn gen_cfg_scale(rng: &mut Rng, prop: &str) -> CfgSpec {
+    let napp = if prop == "C03" { *rng.pick(&[14usize, 40, 270, 300]) } else { *rng.pick(&[6usize, 14]) };
+    let mut appenders: Vec<AppSpec> = (0..napp)
+        .map(|_| {
+            let filters = if rng.chance(1, 3) { vec![if rng.chance(1, 2) { FilterSpec::Script { seed: rng.next_u64() } } else { FilterSpec::Threshold { level: rng.range(0, 5) as u8 } }] } else { vec![] };
+            AppSpec { filters, fail_num: if prop == "C03" || prop == "C02" { *rng.pick(&[0u8, 0, 0, 2, 4]) } else { 0 }, fail_seed: rng.next_u64(), reenter: None, render: None }
+        })
+        .collect();
+    let pick = |rng: &mut Rng, k: usize| -> Vec<usize> { (0..k).map(|_| if rng.chance(1, 2) { napp - 1 - rng.below(napp.min(40) as u64) as usize } else { rng.below(napp as u64) as usize }).collect() };
+    let nsib = rng.range(9, 14) as usize;
+    let mut loggers = vec![];
+    for k in 0..nsib {
+        let n = rng.below(3) as usize;
+        loggers.push(LoggerSpec { name: format!("svc{}", k), level: rng.range(0, 5) as u8, additive: rng.chance(2, 3), appenders: pick(rng, n) });
+    }
+    for _ in 0..rng.range(2, 4) {
+        let k = rng.below(nsib as u64);
+        let name = if rng.chance(1, 2) { format!("svc{}::inner", k) } else { format!("svc{}::inner::deep::er::and::deeper", k) };
+        if !loggers.iter().any(|l: &LoggerSpec| l.name == name) {
+            let n = rng.below(3) as usize;
+            loggers.push(LoggerSpec { name, level: rng.range(0, 5) as u8, additive: rng.chance(2, 3), appenders: pick(rng, n) });
+        }
+    }
+    let la = rng.range(0, 5) as u8;
+    let lb = (la + 1 + rng.below(5) as u8) % 6;
+    let n1 = rng.below(2) as usize;
+    loggers.push(LoggerSpec { name: format!("{}::orders", LONG_PREFIX), level: la, additive: true, appenders: pick(rng, n1) });
+    let n2 = rng.below(2) as usize;
+    loggers.push(LoggerSpec { name: format!("{}::events", LONG_PREFIX), level: lb, additive: rng.chance(1, 2), appenders: pick(rng, n2) });
+    if prop == "C03" || prop == "C02" {
+        // one logger whose appenders all fail, more of them than any small table holds
+        let many: Vec<usize> = (0..rng.range(9, 13) as usize).map(|i| (i * 7 + 3) % napp).collect();
+        for i in &many {
+            appenders[*i].fail_num = 4;
+            appenders[*i].filters.clear();
+        }
+        loggers.push(LoggerSpec { name: "svc0::failing".into(), level: 5, additive: rng.chance(1, 2), appenders: many });
+    }
+    let nr = rng.below(3) as usize;
+    CfgSpec { appenders, root_level: rng.range(0, 5) as u8, root_appenders: pick(rng, nr), loggers }
+}
+
 pub fn generate(rng: &mut Rng, tier: Tier, prop: &str) -> Scn {
     let nconf = if prop == "C15" { rng.range(2, 5) as u32 } else { 1 };
-    let configs = (0..nconf).map(|v| gen_cfg(rng, nconf, prop, v)).collect();
+    let scale = rng.chance(1, 25);
+    let configs: Vec<CfgSpec> = (0..nconf).map(|v| if scale { gen_cfg_scale(rng, prop) } else { gen_cfg(rng, nconf, prop, v) }).collect();
+    let pool = target_pool(&configs);
     let nlog_threads = rng.range(1, 3) as usize;
     let mut threads = vec![];
     let mut reads = 0;
@@ -745,7 +821,7 @@ pub fn generate(rng: &mut Rng, tier: Tier, prop: &str) -> Scn {
                 break;
             }
             reads += 1;
-            ops.push(LOp::Log { n: n as u16, target: rng.pick(&TARGETS).to_string(), level: rng.range(1, 5) as u8 });
+            ops.push(LOp::Log { n: n as u16, target: rng.pick(&pool).to_string(), level: rng.range(1, 5) as u8 });
         }
         threads.push(ops);
     }
@@ -767,13 +843,13 @@ pub fn generate(rng: &mut Rng, tier: Tier, prop: &str) -> Scn {
         // sometimes a thread that both logs and reconfigures
         if rng.chance(1, 3) {
             threads.push(vec![
-                LOp::Log { n: 0, target: rng.pick(&TARGETS).to_string(), level: rng.range(1, 5) as u8 },
+                LOp::Log { n: 0, target: rng.pick(&pool).to_string(), level: rng.range(1, 5) as u8 },
                 LOp::SetConfig { v: rng.below(nconf as u64) as u32 },
-                LOp::Log { n: 1, target: rng.pick(&TARGETS).to_string(), level: rng.range(1, 5) as u8 },
+                LOp::Log { n: 1, target: rng.pick(&pool).to_string(), level: rng.range(1, 5) as u8 },
             ]);
         }
     }
-    let handler_logs = if prop == "C03" && rng.chance(1, 4) { Some((rng.pick(&TARGETS).to_string(), rng.range(1, 5) as u8)) } else { None };
+    let handler_logs = if prop == "C03" && rng.chance(1, 4) { Some((rng.pick(&pool).to_string(), rng.range(1, 5) as u8)) } else { None };
     Scn { configs, threads, prop: prop.to_string(), file_v0: false, broken: vec![], handler_logs, sched_seed: rng.next_u64(), policy: common::gen_policy(rng) }
 }
 
